@@ -19,7 +19,8 @@ from concurrent.futures import ThreadPoolExecutor
 
 LEVEL = 'exploration'
 RULE = ('each program = 10-80 recorded public calls on one endpoint (hostile-peer traffic incl. header blocks with repeated '
-        'content-length / host fields, settings frames with many keys, API fuzzing with dict-valued arguments, error paths); '
+        'content-length / host fields, settings frames with many keys, API fuzzing with dict-valued arguments, error paths, groups '
+        'of streams closed together until a lowered MAX_CLOSED_STREAMS is exceeded, then late frames on the oldest of them); '
         'replayed twice in-process and in fresh interpreters under PYTHONHASHSEED in {0,1,2,12345,<seed-derived>} (8 values in '
         'thorough); non-trivial = program with >= 5 steps whose digests were compared across all replays; distinct = hash of '
         'the program')
@@ -58,6 +59,19 @@ def _dec(x):
     return x
 
 
+def _make_conn(client, cfg):
+    """cfg may carry 'max_closed': the documented class-level knob H2Connection.MAX_CLOSED_STREAMS, lowered through a
+    subclass so that short programs cross the cap of the closed-stream memory."""
+    import h2.config
+    import h2.connection
+    cfg = dict(cfg)
+    cap = cfg.pop('max_closed', None)
+    cls = h2.connection.H2Connection
+    if cap is not None:
+        cls = type('H2ConnectionWithSmallClosedStreamMemory', (cls,), {'MAX_CLOSED_STREAMS': cap})
+    return cls(config=h2.config.H2Configuration(client_side=client, **cfg))
+
+
 # ---------------------------------------------------------------------------
 # child side
 
@@ -81,8 +95,10 @@ def record_programs(seed, start, count):
         e_client = rng.random() < 0.5
         cfg = dict(header_encoding=rng.choice([None, None, 'utf-8']),
                    validate_inbound_headers=rng.random() < 0.85, normalize_inbound_headers=rng.random() < 0.85)
-        t = Rec(core.make_conn(e_client, **cfg))
-        kind = rng.choice(['hostile', 'hostile', 'api', 'dup-fields', 'settings'])
+        kind = rng.choice(['hostile', 'hostile', 'api', 'dup-fields', 'settings', 'churn'])
+        if kind == 'churn' or rng.random() < 0.25:
+            cfg['max_closed'] = rng.choice([4, 8, 16, 32])
+        t = Rec(_make_conn(e_client, cfg))
         t.call('initiate_connection')
         pg = gen.PeerGen(rng, e_client, hostile=rng.choice([0.0, 0.1, 0.3]), hdr_hostile=rng.choice([0.0, 0.2]))
         t.call('receive_data', pg.preface([(k, v) for k, v in [(1, 8192), (3, 50), (4, 70000), (5, 20000), (6, 9000), (0x21, 7),
@@ -127,6 +143,57 @@ def record_programs(seed, start, count):
                     t.call('receive_data', wire.build_headers(sid, hm.encode(hs)))
                 t.call('receive_data', wire.build_data(sid, b'1234567'))
                 t.call('receive_data', wire.build_data(sid, b'890', end_stream=True))
+        elif kind == 'churn':
+            # streams are opened and closed in groups, so that several are swept into the closed-stream memory in one pass,
+            # until the memory's cap is exceeded by less than one group; then late frames arrive on the oldest streams:
+            # which of them are still remembered (stream error) and which forgotten (connection error) is part of the transcript
+            cap = cfg['max_closed']
+            group = rng.choice([3, 5, 7, 9])
+            excess = rng.randrange(1, group)
+            total = cap + excess
+            total += (-total) % group                    # whole groups ...
+            groups = total // group + 1                  # ... and one more opening, which sweeps the last group
+            req = hm.encode([(b':method', b'GET'), (b':scheme', b'https'), (b':authority', b'example.com'), (b':path', b'/')])
+            opened = []
+            for g in range(groups):
+                ids = []
+                if e_client:
+                    for _ in range(group if g < groups - 1 else 1):
+                        r = t.call('send_headers', nsid, gen.valid_headers(rng, 'request'))
+                        if r.ok:
+                            ids.append(nsid)
+                        nsid += 2
+                else:
+                    data = b''
+                    for _ in range(group if g < groups - 1 else 1):
+                        ids.append(pg.next_sid)
+                        data += wire.build_headers(pg.next_sid, req)
+                        pg.next_sid += 2
+                    t.call('receive_data', data)
+                if g == groups - 1:
+                    break
+                opened.append(ids)
+                closers = [rng.choice(['peer-rst', 'peer-rst', 'own-rst', 'end']) for _ in ids]
+                data = b''
+                for sid, how in zip(ids, closers):
+                    if how == 'peer-rst':
+                        data += wire.build_rst(sid, rng.choice([0, 8]))
+                    elif how == 'own-rst':
+                        t.call('reset_stream', sid)
+                    elif e_client:
+                        t.call('end_stream', sid)
+                        data += wire.build_headers(sid, hm.encode([(b':status', b'200')]), end_stream=True)
+                    else:
+                        data += wire.build_data(sid, b'', end_stream=True)
+                        t.call('send_headers', sid, [(b':status', b'204')], end_stream=True)
+                if data:
+                    t.call('receive_data', data)
+            probes = [sid for ids in opened[:2] for sid in ids]
+            rng.shuffle(probes)
+            for sid in probes:
+                late = rng.choice([wire.build_window_update(sid, 10), wire.build_data(sid, b'late'), wire.build_rst(sid, 0),
+                                   wire.build_headers(sid, hm.encode([(b':status', b'200')]) if e_client else req)])
+                t.call('receive_data', late)
         elif kind == 'settings':
             for _ in range(rng.choice([2, 5, 10])):
                 d = {}
@@ -219,7 +286,7 @@ def replay_programs(progs):
     out = {}
     trips = []
     for p in progs:
-        conn = core.make_conn(p['client'], **p['cfg'])
+        conn = _make_conn(p['client'], p['cfg'])
         digs = []
         for op, args, kw in p['ops']:
             a = _dec(args)
@@ -320,6 +387,7 @@ def parent_main(seed, tier, jobs, cases):
                 key = str(pr['idx'])
                 ref = outs[hashseeds[0]]['first'][key]
                 res['progs'] += 1
+                res['churn'] = res.get('churn', 0) + (pr['kind'] == 'churn')
                 res['steps'] += len(ref)
                 if len(ref) >= 5:
                     res['distinct'].append(core.h64(json.dumps(pr['ops'])))
@@ -362,6 +430,7 @@ def parent_main(seed, tier, jobs, cases):
         m['cases'] += r['progs']
         cnt('programs_replayed', r['progs'])
         cnt('steps_compared', r['steps'] * len(hashseeds) * 2)
+        cnt('programs_crossing_the_closed_stream_cap', r.get('churn', 0))
         cnt('interpreter_processes', len(hashseeds) + 1)
         cnt('audit_events_during_calls', r['audit'])
         m['sets'].setdefault('audit_event_names', set()).update(r['names'])
@@ -378,7 +447,7 @@ def parent_main(seed, tier, jobs, cases):
     return m
 
 
-MINIMA = {'programs_replayed': 200, 'steps_compared': 20000}
+MINIMA = {'programs_replayed': 200, 'steps_compared': 20000, 'programs_crossing_the_closed_stream_cap': 30}
 
 
 def n_cases(tier):
